@@ -2405,6 +2405,39 @@ func scApplyLength(r *h.Rng) *prog {
 	return p
 }
 
+// the name of a named function expression is bound in an environment of its own whether or not the function's source
+// mentions it (13): the name is reached only through direct eval of a code string that is not spelled in the function
+// (read, typeof, assignment - ignored: the binding is immutable -, a closure made by the eval code, recursion)
+func scSelfNameEval(r *h.Rng) *prog {
+	p := &prog{}
+	p.v("run", "res", "k")
+	name := pickS(r, []string{"walker", "selfname", "recur", "fun", "unct"})
+	var code []m.N
+	switch r.Intn(5) {
+	case 0:
+		code = []m.N{m.X(m.Typeof(m.Var(name)))}
+	case 1:
+		code = []m.N{m.X(m.Seq(m.Var(name), m.Var("run")))}
+	case 2:
+		code = []m.N{m.X(m.Asg(name, m.Num(5))), m.X(m.Typeof(m.Var(name)))}
+	case 3:
+		code = []m.N{m.X(m.Fn{Body: []m.N{m.Ret(m.Typeof(m.Var(name)))}}.Expr())}
+	default: // recursion through the name
+		code = []m.N{m.X(m.Cond(m.Lt(m.Var("d"), m.Num(2)), m.CallV(name, m.Add(m.Var("d"), m.Num(1))), m.Add(m.Str("depth"), m.Var("d"))))}
+	}
+	body := []m.N{m.Ret(m.EvalX(nil, nil, code))}
+	if r.Chance(30) {
+		body = []m.N{lg(m.Str("in")), m.Ret(m.EvalX(nil, nil, code))}
+	}
+	p.add(m.X(m.Asg("run", m.Fn{Name: name, Params: []string{"d"}, Body: body}.Expr())))
+	p.add(m.X(m.Asg("res", m.CallV("run", m.Num(0)))))
+	p.add(m.If(m.Seq(m.Typeof(m.Var("res")), m.Str("function")), []m.N{lg(m.CallV("res"))}, []m.N{lg(m.Var("res"))}))
+	p.add(lg(m.Typeof(m.Var(name))))
+	// the same function with the name spelled in its body, for comparison
+	p.add(m.X(m.Asg("run", m.Fn{Name: name, Body: []m.N{m.Ret(m.Typeof(m.Var(name)))}}.Expr())), lg(m.CallV("run")))
+	return p
+}
+
 func init() {
 	fnScenarios = append(fnScenarios, []fnScenario{
 		{"with-lookup", scWithLookup}, {"with-closure", scWithClosure}, {"with-this", scWithThis}, {"with-var", scWithVar},
@@ -2414,5 +2447,5 @@ func init() {
 		{"labels", scLabels}, {"dup-params", scDupParams}, {"order", scOrder},
 		{"label-capture", scLabelCapture}, {"eval-throw", scEvalThrow},
 		{"hoist-collide", scHoistCollide}, {"label-stale", scLabelStale}, {"host-reentry", scHostReentry},
-		{"bind-chain", scBindChain}, {"forin-init", scForInInit}, {"eval-delete", scEvalDelete}, {"args-define", scArgsDefine}, {"global-redeclare", scGlobalRedeclare}, {"cond-ref", scCondRef}, {"late-global", scLateGlobal}, {"uncaught", scUncaught}, {"fresh-literals", scFreshLiterals}, {"prim-base", scPrimBase}, {"dup-keys", scDupKeys}, {"catch-delete", scCatchDelete}, {"forin-rebind", scForInRebind}, {"fn-ctor", scFnCtor}, {"redeclare-runs", scRedeclareAcrossRuns}, {"completion", scCompletion}, {"switch", scSwitch}, {"close-over", scCloseOver}, {"this-forms", scThisForms}, {"apply-length", scApplyLength}}...)
+		{"bind-chain", scBindChain}, {"forin-init", scForInInit}, {"eval-delete", scEvalDelete}, {"args-define", scArgsDefine}, {"global-redeclare", scGlobalRedeclare}, {"cond-ref", scCondRef}, {"late-global", scLateGlobal}, {"uncaught", scUncaught}, {"fresh-literals", scFreshLiterals}, {"prim-base", scPrimBase}, {"dup-keys", scDupKeys}, {"catch-delete", scCatchDelete}, {"forin-rebind", scForInRebind}, {"fn-ctor", scFnCtor}, {"redeclare-runs", scRedeclareAcrossRuns}, {"completion", scCompletion}, {"switch", scSwitch}, {"close-over", scCloseOver}, {"this-forms", scThisForms}, {"apply-length", scApplyLength}, {"selfname-eval", scSelfNameEval}}...)
 }
